@@ -198,7 +198,7 @@ package parquet
 //@ func (*RequiredField).DoRead
 //@   requires external(r)
 //@   modifies heap("parquet.readCounter"), rfault
-//@   ensures err == nil ==> dyn(res0) == typeid("*bytes.Buffer") && payload(res0) != 0
+//@   ensures err == nil ==> dyn(res0) == typeid("*bytes.Buffer") && payload(res0) != 0 && freshsince(cast("*bytes.Buffer", res0))
 //@   ensures[C10] err == nil ==> (rfault ==> old(rfault))
 //@ loop (*RequiredField).DoRead#1
 //@   invariant (rfault ==> old(rfault)) && freshOrNil(out) && freshOrNil(sizes)
@@ -207,7 +207,7 @@ package parquet
 //@   requires f != nil && external(r)
 //@   free-requires f.MaxLevels.Def <= 15 && f.MaxLevels.Rep <= 15
 //@   modifies f, HA(f.Defs), HA(f.Reps), heap("parquet.readCounter"), rfault
-//@   ensures err == nil ==> dyn(res0) == typeid("*bytes.Buffer") && payload(res0) != 0
+//@   ensures err == nil ==> dyn(res0) == typeid("*bytes.Buffer") && payload(res0) != 0 && freshsince(cast("*bytes.Buffer", res0))
 //@   ensures[C10] err == nil ==> (rfault ==> old(rfault))
 //@ loop (*OptionalField).DoRead#1
 //@   invariant (rfault ==> old(rfault)) && freshOrNil(out) && freshOrNil(sizes) && sameOrFresh(f.Defs) && sameOrFresh(f.Reps) && f.MaxLevels == old(f.MaxLevels)
